@@ -17,6 +17,7 @@ func init() {
 		&Rule{ID: "R12.1", Props: []string{"C12"}, Floor: 8, Title: "proxy hijack handlers answer exactly once on every path and perform no cluster operation after an error response", Run: r121},
 		&Rule{ID: "R12.2", Props: []string{"C12"}, Floor: 3, Title: "requests the proxy itself sends to the daemon are OPTIONS or the header-extraction path; hijack handlers never reach the reverse proxy", Run: r122},
 		&Rule{ID: "R12.3", Props: []string{"C12"}, Floor: 12, Title: "routing: hijack subrouter limited to POST/GET/PUT under /api/v0, exactly the pinning endpoints hijacked, each mapped to the replacing cluster operation, catch-all reverse proxy registered last", Run: r123},
+		&Rule{ID: "R12.5", Props: []string{"C12"}, Floor: 4, Title: "each hijack handler reads the IPFS API's own option names (arg, type, unpin, pin, only-hash, trickle, stream-errors): a request option read under another name is silently ignored", Run: r125},
 		&Rule{ID: "R12.4", Props: []string{"C12"}, Floor: 3, Title: "slash-style routes add the path argument to the request's own query and delegate", Run: r124},
 	)
 }
@@ -777,4 +778,61 @@ func astTable(pkg *packages.Package, e ast.Expr, depth int) ([]map[string]ast.Ex
 		}
 	}
 	return nil, nil
+}
+
+// r125: the proxy impersonates the IPFS HTTP API, so the option names its
+// handlers read are fixed by that API, not by cluster's own REST vocabulary
+// (where the pin mode is "mode", not "type"). The table is the reviewed set
+// of names per handler on the pinned tree; a handler that stops reading one
+// of them drops that option of the request, one that reads a different name
+// reads nothing.
+func r125(c *Ctx, r *R) {
+	want := map[string][]string{
+		"Server.pinOpHandler":     {"arg", "type"},
+		"Server.pinLsHandler":     {"arg"},
+		"Server.pinUpdateHandler": {"arg", "unpin"},
+		"Server.addHandler":       {"only-hash", "pin", "trickle"},
+		"Server.repoGCHandler":    {"stream-errors"},
+	}
+	var names []string
+	for n := range want {
+		names = append(names, n)
+	}
+	sort.Strings(names)
+	for _, n := range names {
+		f := c.fn(r, "api/ipfsproxy", n)
+		if f == nil {
+			continue
+		}
+		within := ssaClosure(f)
+		got := map[string]bool{}
+		for g := range within {
+			if g != f && len(g.Params) > 0 && g.Signature.Recv() != nil && strings.HasSuffix(g.Name(), "Handler") {
+				continue // another handler reached through a shared dispatcher
+			}
+			for _, ci := range callsIn(g) {
+				if nameMatches(callName(ci.Common()), "(net/url.Values).Get", "(net/url.Values).Has") {
+					args := callArgs(ci.Common())
+					ks, _ := constStringsReaching(args[len(args)-1], within)
+					for k := range ks {
+						got[k] = true
+					}
+				}
+			}
+			instrs(g, func(i ssa.Instruction) {
+				if lk, ok := i.(*ssa.Lookup); ok && strings.HasSuffix(lk.X.Type().String(), "net/url.Values") {
+					if k, isK := constString(lk.Index); isK {
+						got[k] = true
+					}
+				}
+			})
+		}
+		var missing []string
+		for _, k := range want[n] {
+			if !got[k] {
+				missing = append(missing, k)
+			}
+		}
+		r.Check(len(missing) == 0, "ipfs-options:"+n, f.Pos(), fmt.Sprintf("%s reads the IPFS API options %v", n, want[n]), fmt.Sprintf("%s no longer reads the IPFS API option(s) %v of the request (it reads %v): what the client asked for is silently ignored", n, missing, keysOf(got)))
+	}
 }
